@@ -30,7 +30,7 @@ prop("C19", "exploration",
      ["documentation-silent cases are don't-care: unconfirmed cancelled entries under include_outstanding_only, cancelled/reverted "
       "entries under include_sent_only/include_received_only, entries without confirmation time under confirmation-time bounds, "
       "sent entries under amount bounds when the signed and magnitude readings disagree, tie order"],
-     required_hist=["result:proper-subset", "lookups"])
+     required_hist=["result:proper-subset", "lookups", "stored-tx-lookups:id-shared-with-another-accounts-stored-tx"])
 
 prop("C01", "exploration",
      "workload A: the real selection::select_coins_and_fee + inputs_and_change (hook H1) on an in-memory backend: exhaustive small "
@@ -115,7 +115,7 @@ prop("C03", "exploration", HIST_RULE + "; C03 monitor M-excl: every Locked outpu
      {"quick": 3000, "thorough": 40000},
      ["deliveries of one slate to a different account are judged only by the exclusivity invariants (the statement says 'the same step')",
       "histories of this check never cancel after broadcast"],
-     required_hist=["repeat:tx_lock_outputs:refused", "repeat:receive_tx:refused", "repeat:finalize_tx:refused", "finalized-inputs-checked", "op:cancel", "op:restart", "op:lock-called-on-a-late-locked-send-before-finalize:ok"])
+     required_hist=["repeat:tx_lock_outputs:refused", "repeat:receive_tx:refused", "repeat:finalize_tx:refused", "finalized-inputs-checked", "op:cancel", "op:restart", "op:lock-called-on-a-late-locked-send-before-finalize:ok", "repeat:receive_tx(into-another-account):refused", "repeat:process_invoice_tx(from-another-account):refused"])
 
 prop("C04", "exploration", HIST_RULE + "; C04 monitor M-books at every validated refresh: wallet records Unspent/Locked <=> commitment in the chain's UTXO set "
      "(plus: no UTXO commitment ever held by the account is forgotten), reported spendable/immature/awaiting/locked/total for minimum_confirmations "
